@@ -80,6 +80,13 @@ int dump_xattrs(sqfs_xattr_reader_t *x, const sqfs_inode_generic_t *i) { (void)x
 int sqfs_tree_node_get_path(const sqfs_tree_node_t *n, char **out) { (void)n; *out = NULL; return SQFS_ERROR_ALLOC; }
 void sqfs_free(void *p) { free(p); }
 
+/* stdout: list / describe / stat / xattr dump print through stdio; whether the
+   bytes reached the file is only known after fflush() / ferror() */
+static int flush_checks, stdout_failed;
+static int vp_fflush(FILE *f) { (void)f; flush_checks++; if (stepf()) { stdout_failed = 1; return EOF; } return 0; }
+static int vp_ferror(FILE *f) { (void)f; return stdout_failed; }
+#define fflush(f) vp_fflush(f)
+#define ferror(f) vp_ferror(f)
 #define main rdsquashfs_main
 #include "bin/rdsquashfs/src/rdsquashfs.c"
 #undef main
@@ -103,6 +110,7 @@ void harness(void)
 	}
 	VP_ASSERT(tree_destroyed == tree_made, "the tree is destroyed exactly once iff it was read");
 	if (rc == EXIT_SUCCESS) {
+		VP_ASSERT(flush_checks >= 1 && !stdout_failed, "C13: success is only reported after standard output was flushed and found error free (rdsquashfs -d > file on a full disk must not exit 0)");
 		VP_ASSERT(created[O_FILE] && created[O_CMP] && created[O_ID] && created[O_DIRRD] && created[O_DATA] && tree_made == 1 && (created[O_XATTR] == !no_xattrs), "success only after the whole set-up ran");
 		VP_REACH("success");
 	} else {
